@@ -507,11 +507,11 @@ static void reg_run(const std::vector<std::string> &plan, Child &c) {
       std::vector<uint8_t> ref((size_t)act.n * size);
       for (int i = 0; i < act.n; i++) {
         uint32_t v = 0;
-        memcpy(&v, act.arr[s1].data() + (size_t)i * size, size);
+        memcpy(&v, act.ptr(s1) + (size_t)i * size, size);
         size_t si = 1;
         for (auto &in : insns) {
           uint32_t b = 0;
-          if (in.kind != K_COPY) { memcpy(&b, act.arr[srcvars[si]].data() + (size_t)i * size, size); si++; }
+          if (in.kind != K_COPY) { memcpy(&b, act.ptr(srcvars[si]) + (size_t)i * size, size); si++; }
           v = apply_kind(in.kind, v, b);
           if (size < 4) v &= (1u << (8 * size)) - 1;
         }
@@ -521,7 +521,7 @@ static void reg_run(const std::vector<std::string> &plan, Child &c) {
       run_with(p, nullptr, meta, RUN_EXEC, act);
       std::set<int> emu_during_run;
       for (int i = 0; i < next_emu; i++) if (g_emu_hits[i]) emu_during_run.insert(i);
-      if (memcmp(act.arr[d1].data(), ref.data(), ref.size()))
+      if (memcmp(act.ptr(d1), ref.data(), ref.size()))
         c.violation("result", ok ? "native-result-wrong" : "fallback-result-wrong", strf("program [%s] on %s (%s) computes results different from the extension's own reference", meta.opnames.c_str(), tname.c_str(), ok ? "native" : "fallback"));
       if (ok && !emu_during_run.empty())
         c.violation("result", "emulation-used-despite-native", "a natively compiled program called emulation functions");
@@ -531,7 +531,7 @@ static void reg_run(const std::vector<std::string> &plan, Child &c) {
       for (int i = 0; i < next_emu; i++) if (g_emu_hits[i]) got_emu.insert(i);
       for (auto &in : insns) if (in.ext) expect_emu.insert(sets[in.set].ops[in.idx].emu_id);
       c.event("  ran out=%016llx emulate ids=%s", (unsigned long long)hash_outputs(meta, act), set_str(got_emu).c_str());
-      if (memcmp(emu.arr[d1].data(), ref.data(), ref.size()))
+      if (memcmp(emu.ptr(d1), ref.data(), ref.size()))
         c.violation("result", "emulation-result-wrong", strf("emulation of [%s] differs from the extension's own reference", meta.opnames.c_str()));
       if (got_emu != expect_emu)
         c.violation("emulate", "wrong-emulate-function", strf("emulation invoked the application's functions {%s}, expected {%s}", set_str(got_emu).c_str(), set_str(expect_emu).c_str()));
